@@ -4,6 +4,7 @@ import (
 	"bufio"
 	"encoding/hex"
 	"fmt"
+	"io"
 	"sort"
 	"strings"
 	"time"
@@ -164,6 +165,19 @@ func runC15(r *core.Run) {
 			r.Probe("seeded-vcss")
 		}
 	}
+	// a transient failure of the randomness source during the run, on a back end that calls every
+	// error retriable: the retried attempt of a dry run is as dry as the first
+	var flaky *flakyReader
+	var runVCS endorse.VersionControl = vcs
+	if r.Chance(20, "transient-random-failure?") {
+		flaky = &flakyReader{R: a.Rand, FailNext: 1 + r.Intn(2, "random-failures")}
+		a.Rand = flaky
+		defer func() { a.Rand = flaky.R }()
+		runVCS = retryAllVCS{vcs}
+		if q.Retries < 2 {
+			q.Retries = 2
+		}
+	}
 	calls0 := len(vcs.Calls)
 	head0 := vcs.HeadRev
 	a.Decorate = true
@@ -174,8 +188,14 @@ func runC15(r *core.Run) {
 	var panicked any
 	func() {
 		defer func() { panicked = recover() }()
-		out, err = Endorse(r, a, vcs, q, scratch)
+		out, err = Endorse(r, a, runVCS, q, scratch)
 	}()
+	if flaky != nil {
+		a.Rand = flaky.R
+		if flaky.Fired > 0 {
+			r.Fault("random-read-error", "%d reads failed", flaky.Fired)
+		}
+	}
 	plan.Active = false
 	a.Decorate = false
 	cfgKey := fmt.Sprintf("dry=%v mo=%v snp=%v tdx=%v snap=%v cand=%q ow=%v vmsas=%d genoa=%v shapes=%d ea=%v cli=%v tdximg=%v", q.DryRun, q.MeasurementOnly, q.SNP, q.TDX, q.SnapshotDir != "", q.Candidate, q.Overwrite, q.LaunchVmsas, q.Genoa, len(q.Shapes), q.EarlyAccept, q.ViaCLI, img.TDX)
@@ -184,6 +204,14 @@ func runC15(r *core.Run) {
 	mk := fmt.Sprintf("mo=%v/snapshot=%v", q.MeasurementOnly, q.SnapshotDir != "")
 	if panicked != nil {
 		r.Fail("dry-run-crash", "panic/"+mk, "%s: the run panicked: %v", q, panicked)
+		return
+	}
+	if err != nil && flaky != nil && flaky.Fired > 0 {
+		// failing on a failed randomness read is legitimate; doing anything to the repository is not
+		r.Probe("run-failed-on-random-read-error")
+		if n := len(vcs.Calls) - calls0; n != 0 || vcs.HeadRev != head0 {
+			r.Fail("dry-run-side-effect", "after-random-error/"+mk, "%s: %d version-control calls were made after a failed randomness read, head moved %d -> %d", q, n, head0, vcs.HeadRev)
+		}
 		return
 	}
 	if err != nil {
@@ -226,3 +254,24 @@ func runC15(r *core.Run) {
 	}
 	r.Sample = map[string]any{"config": cfgKey, "stdout_lines": strings.Count(out, "\n")}
 }
+
+// flakyReader fails its next FailNext reads.
+type flakyReader struct {
+	R        io.Reader
+	FailNext int
+	Fired    int
+}
+
+func (f *flakyReader) Read(p []byte) (int, error) {
+	if f.FailNext > 0 {
+		f.FailNext--
+		f.Fired++
+		return 0, fmt.Errorf("randomness source: resource temporarily unavailable")
+	}
+	return f.R.Read(p)
+}
+
+// retryAllVCS is a back end that calls every error retriable (the interface leaves that to it).
+type retryAllVCS struct{ *seams.SimVCS }
+
+func (retryAllVCS) RetriableError(error) bool { return true }
